@@ -150,6 +150,7 @@ fn dump_reader<R: Read + Seek>(r: &mut Mp4Reader<R>, c: &Value, out: &mut Value)
         "minor": gv(guard(|| r.minor_version())),
         "brands": gv(guard(|| r.compatible_brands().iter().map(|b| u32::from(b)).collect::<Vec<u32>>())),
         "duration_ms": gv(guard(|| r.duration().as_millis() as u64)),
+        "duration_ns": gv(guard(|| r.duration().as_nanos() as u64)),
         "timescale": gv(guard(|| r.timescale())),
         "fragmented": gv(guard(|| r.is_fragmented())),
         "mvhd_duration": r.moov.mvhd.duration, "mvhd_version": r.moov.mvhd.version,
